@@ -684,6 +684,8 @@ func ErrClass(msg string) string {
 		return "panic"
 	case strings.HasPrefix(msg, "D:"):
 		return "dir"
+	case strings.HasPrefix(msg, "I:"):
+		return "int"
 	case msg == "must not be null", strings.Contains(msg, "the requested element is null which the schema does not allow"):
 		return "nonnull"
 	case strings.Contains(msg, "context canceled"), strings.Contains(msg, "context deadline"):
